@@ -5,11 +5,42 @@
 //! of a step is recorded exactly.
 
 use std::cell::{Cell, RefCell};
+use std::collections::VecDeque;
 
 thread_local! {
     static TRACE: RefCell<Vec<String>> = const { RefCell::new(Vec::new()) };
     static BASE: Cell<Option<tokio::time::Instant>> = const { Cell::new(None) };
     static ENABLED: Cell<bool> = const { Cell::new(false) };
+    static PHYS: RefCell<VecDeque<(u16, usize)>> = const { RefCell::new(VecDeque::new()) };
+}
+
+/// Hook H7: the harness announces that the next `len` octets read from the mock physical layer arrive
+/// from 127.0.0.1:`port` (as a datagram received by an unconnected UDP socket would)
+pub(crate) fn push_phys_addr(port: u16, len: usize) {
+    PHYS.with(|q| q.borrow_mut().push_back((port, len)));
+}
+
+pub(crate) fn clear_phys_addrs() {
+    PHYS.with(|q| q.borrow_mut().clear());
+}
+
+/// sender of the `count` octets just read; nothing announced = no address (stream transports)
+pub(crate) fn next_phys_addr(count: usize) -> crate::util::phys::PhysAddr {
+    PHYS.with(|q| {
+        let mut q = q.borrow_mut();
+        match q.front_mut() {
+            None => crate::util::phys::PhysAddr::None,
+            Some((port, left)) => {
+                let addr = std::net::SocketAddr::from(([127, 0, 0, 1], *port));
+                if *left <= count {
+                    q.pop_front();
+                } else {
+                    *left -= count;
+                }
+                crate::util::phys::PhysAddr::Udp(addr)
+            }
+        }
+    })
 }
 
 /// start recording; virtual time is measured from now
